@@ -169,6 +169,33 @@ Theorem C12_pin_name_sources :
   /\ gbnf_parser_inferred_name = lit "INFERRED".
 Proof. exact pin_name_sources. Qed.
 
+(* repo 61337a1: in compile_gbnf_from_meta a TYPE value that is not a str is replaced by the literal UNKNOWN *)
+Theorem C12_pin_meta_type_nonstring :
+  gbnf_meta_type_nonstring_is_unknown = true /\ gbnf_meta_type_nonstring_name = lit "UNKNOWN".
+Proof. exact pin_meta_type_nonstring. Qed.
+
+(* every META TYPE (absent, str, anything else) names a schema; non-str = absent = UNKNOWN *)
+Theorem C12_meta_schema_name_total : forall ty, exists n, meta_schema_name ty = Some n.
+Proof. exact meta_schema_name_total. Qed.
+
+Theorem C12_meta_schema_name_cases : forall t,
+  meta_schema_name MtAbsent = Some (lit "UNKNOWN") /\ meta_schema_name (MtStr t) = Some t
+  /\ meta_schema_name MtOther = Some (lit "UNKNOWN") /\ meta_schema_name MtOther = meta_schema_name MtAbsent.
+Proof. exact meta_schema_name_cases. Qed.
+
+(* the pre-fix behaviour (no isinstance guard): a non-str TYPE gave no name -- compile_schema raised on the raw value *)
+Theorem C12_meta_schema_name_pre_guard : forall t,
+  meta_schema_name_g false MtOther = None /\ meta_schema_name_g false (MtStr t) = Some t
+  /\ meta_schema_name_g false MtAbsent = Some (lit "UNKNOWN").
+Proof. exact meta_schema_name_pre_guard. Qed.
+
+Theorem C12_regress_nonstring_type_wf :
+  match meta_schema_name MtOther with
+  | Some n => wf_text (compile_schema (sch_named n [fld w_NAME [CReq]]) true) && wf_text (compile_schema (sch_named n []) true)
+  | None => false
+  end = true.
+Proof. exact regress_nonstring_type_wf. Qed.
+
 Theorem C12_pin_escape_flags_agree_with_templates :
   gbnf_field_name_escaped = negb (tpl_has_hole gbnf_schema_prog h_field_name) /\
   gbnf_schema_name_escaped = negb (tpl_has_hole gbnf_schema_prog h_schema_upper).
